@@ -128,6 +128,17 @@ def rows(ctx: Ctx):
             if n >= 2 and sname != "aug":
                 ss[1] = ss[0]                       # the same signature more than once
             run("Aggregate", sname, 0, b"", ss, lambda: S.Aggregate(ss))
+    # sums that cancel: signatures by sk and r - sk on one message (the result is the identity, however it is represented)
+    for sk in (sks[4], 5):
+        for sname in ("basic", "pop"):
+            S = suites[sname]
+            try:
+                ss = [bytes(S.Sign(sk, b"cancel")), bytes(S.Sign(r - sk, b"cancel"))]
+            except Exception:  # noqa: BLE001 -- judged by the Sign rows
+                continue
+            run("Aggregate", sname, 0, b"", ss, lambda: S.Aggregate(ss))
+            ss3 = ss + [rng.choice(allsigs)]
+            run("Aggregate", sname, 0, b"", ss3, lambda: S.Aggregate(ss3))
     # Aggregate does not check the subgroup: encodings of twist points whose y has a zero real or imaginary part
     # (x in Fp) take the other branch of the sign rule; one of them alone must come back unchanged
     for s_ in special_sigs(rng, 3 if quick else 12):
